@@ -125,6 +125,9 @@ func (cache *HevcCache) getPalyloadType(payload []byte) (vps, sps, pps, islice b
 		off := 2
 		// 循环读取被封装的NAL
 		for {
+			if off+2 >= len(payload) { // 截断的聚合包：长度字段或 NAL 头不完整
+				return
+			}
 			// nal长度
 			nalSize := ((uint16(payload[off])) << 8) | uint16(payload[off+1])
 			if nalSize < 1 {
